@@ -93,7 +93,7 @@ impl Check for C03 {
         "C03"
     }
     fn rule(&self) -> String {
-        "one table of 2-5 INTEGER/DOUBLE/VARCHAR columns, 0-40 rows (NULL densities 0/.2/.6/1; thorough also 1000-3000 rows to cross SIMD lane counts); queries the columnar gate accepts: \
+        "one table of 2-5 INTEGER/DOUBLE/VARCHAR columns, 0-40 rows (NULL densities 0/.2/.6/1; one table in 50 (quick) / 6 (thorough) has 1000-3000 rows to fill SIMD batches of 1024 values); queries the columnar gate accepts: \
          select list of COUNT(*)/COUNT(c)/SUM/AVG/MIN/MAX over a column or a+b / a*k, optional WHERE of comparisons/BETWEEN joined by AND; one case in six adds HAVING or ORDER BY 1 / LIMIT / OFFSET, which the gate has to hand to the row path. \
          Oracle: the same statement with the gate forced off through the verif hook (row path), a semantically equal rewrite the gate rejects (derived table / OR (1=0)), and direct assertions \
          (COUNT never NULL). Non-trivial = the hook counter shows the columnar path produced the result AND (some NULL in the table, or empty/filtered-out input). \
